@@ -175,6 +175,10 @@ def run(prop, tier, seed, t0):
     for i, sz in enumerate(groups):
         for c in cb:
             tasks.append(('vlib.props.c14', 'task', prop, seed * 1000 + i, 6 if q else 60, [c], {'sizes': sz}))
+    if not q:
+        from . import sanitizers
+        tasks.append(('vlib.props.sanitizers', 'task_miri', prop, seed, 0, [], {'be': 'simd', 'lines': sanitizers.MIRI_DROP}))
+        tasks.append(('vlib.props.sanitizers', 'task_miri', prop, seed, 0, [], {'be': 'serial32', 'lines': sanitizers.MIRI_DROP}))
     m = core.run_tasks(tasks)
     return core.finish(prop, tier, seed, t0, m,
                        rule='(heap) constant-time multiscalar multiplication (Edwards, Ristretto) and Scalar::batch_invert run inside a '
